@@ -24,7 +24,9 @@ REGISTRY = []  # list of Contract instances
 
 # declared caches: derived data that is outside the observable view (coherence of these is property C11)
 CACHE_ATTRS = ("_vertices", "_Rectangle__shapely_polygon", "_cycle_init_timesteps", "_distance", "_inner_distance",
-               "occupancy_set", "_strtee", "_buffered_polygons", "_lanelet_id_index_by_id")
+               "occupancy_set", "_strtee", "_buffered_polygons", "_lanelet_id_index_by_id",
+               # derived geometry (functions of the primary attributes of the same object)
+               "_initial_occupancy_shape", "_shapely_polygon", "_shapely_circle", "_min", "_max", "_polygon")
 
 
 def resolve(qualname):
